@@ -2,6 +2,9 @@
   C06 — kill() pre-empts the mailbox and never blocks.
 -/
 import Rsactor.Inv.KillBound
+import Rsactor.Ties.select_order
+import Rsactor.Ties.kill_stop_shape
+import Rsactor.Ties.lifecycle_arms
 
 namespace Rsactor.Props.C06
 open Rsactor Rsactor.Model Rsactor.Monitor
@@ -52,5 +55,11 @@ theorem one_further_handler_reachable :
     ∃ s, run? (init 2 {}) [.gate, .startDone, .issue 0 { kind := .tell }, .push 0, .pollTerm,
       .issue 0 { kind := .kill }, .pollMail] = some s ∧ (C06.kb s.ev).starts = 1 := by
   refine ⟨_, rfl, ?_⟩; decide
+
+
+/-! ### ties to the source: shape lemmas about the tables regenerated from /repo on every run -/
+-- @tie Rsactor.Ties.select_order
+-- @tie Rsactor.Ties.kill_stop_shape
+-- @tie Rsactor.Ties.lifecycle_arms
 
 end Rsactor.Props.C06
